@@ -46,6 +46,8 @@ def oracle(size, first, last):
 def check(ctx):
     with ctx.section("arithmetic"):
         _arithmetic(ctx)
+    with ctx.section("content-range"):
+        _content_range(ctx)
     with ctx.section("parse"):
         _parse(ctx)
     with ctx.section("make-producer"):
@@ -73,7 +75,7 @@ def _arithmetic(ctx):
                     if first is not None and last is not None and first > last:
                         continue
                     n += 1
-                    kind, val = interpret(f, {ps[1]: first, ps[2]: last, "self": None}, {"self.getFileSize()": size})
+                    kind, val = interpret(f, {ps[1]: first, ps[2]: last, "self": None}, {"self.getFileSize()": size, "self.getsize()": size})
                     exp = oracle(size, first, last) or (0, 0)
                     if kind != "return" or tuple(val) != exp:
                         bad.append((size, first, last, val, exp))
@@ -87,26 +89,24 @@ def _arithmetic(ctx):
     ctx.check(not bad, "arith/range-to-offset", q, msg, detail=f"{n} (size, first, last) cases equal the oracle")
     ctx.extra["finite_cases_range_arithmetic"] = n
 
+
+def _content_range(ctx):
     f = ctx.func(S, "File._contentRange")
     q = Q + "File._contentRange"
-    rets = [s for s in walk_local(f) if isinstance(s, ast.Return)]
-    ctx.need(len(rets) == 1, "single return in _contentRange")
-    e = rets[0].value
-    if isinstance(e, ast.Call) and call_name(e) == "networkString":
-        e = e.args[0]
     ps = param_names(f)
     bad = []
+    funcs = {"networkString": lambda s_: s_.encode("ascii"), "nativeString": lambda s_: s_.decode("ascii") if isinstance(s_, bytes) else s_}
     try:
         for size in (1, 7, 10, 12345):
             for off in (0, 1, 6):
                 for ln in (1, 2, 5):
-                    got = subst_eval(e, {"self.getFileSize()": size}, {ps[1]: off, ps[2]: ln})
+                    kind, got = interpret(f, {ps[1]: off, ps[2]: ln, "self": None}, {"self.getFileSize()": size, "self.getsize()": size}, funcs=funcs)
                     if isinstance(got, bytes):
                         got = got.decode()
-                    if got != f"bytes {off}-{off + ln - 1}/{size}":
+                    if kind != "return" or got != f"bytes {off}-{off + ln - 1}/{size}":
                         bad.append((off, ln, size, got))
-    except NotConst as ex:
-        raise AnalysisError(f"C25: _contentRange expression not evaluable: {ex}")
+    except InterpError as ex:
+        raise AnalysisError(f"C25: _contentRange uses a construct the evaluator cannot interpret: {ex}")
     ctx.check(not bad, "arith/content-range", q, f"Content-Range for (offset, size, total) = {bad[0][:3]} is {bad[0][3]!r}" if bad else "")
 
 
@@ -501,6 +501,10 @@ MUTANTS = [
     Mutant("dispatch-single-for-first-of-many", S, "        if len(parsedRanges) == 1:\n            offset, size", "        if len(parsedRanges) >= 1:\n            offset, size"),
 ]
 SILENT = [
+    Silent("content-range-fstring", S, "        return networkString(\n            \"bytes %d-%d/%d\" % (offset, offset + size - 1, self.getFileSize())\n        )",
+           "        last = offset + size - 1\n        total = self.getFileSize()\n        return f\"bytes {offset}-{last}/{total}\".encode(\"ascii\")"),
+    Silent("range-arithmetic-rewritten", S, "        size = self.getFileSize()\n        if start is None:\n            start = max(size - end, 0)\n            end = size\n        elif end is None:\n            end = size\n        elif end < size:\n            end += 1\n        elif end > size:\n            end = size\n        if start >= size:\n            start = end = 0\n        return start, (end - start)",
+           "        size = self.getFileSize()\n        if start is None:\n            first, stop = max(size - end, 0), size\n        else:\n            first = start\n            stop = size if end is None else min(end + 1, size)\n        if first >= size:\n            return 0, 0\n        return first, stop - first"),
     Silent("suffix-clamp-rewritten", S, "            start = max(size - end, 0)\n", "            start = size - end\n            if start < 0:\n                start = 0\n"),
     Silent("end-clamp-min", S, "        elif end < size:\n            end += 1\n        elif end > size:\n            end = size\n", "        else:\n            end = min(end + 1, size)\n"),
     Silent("handler-backslashreplace", S, "f\"{byteRange.decode('utf-8', 'replace')!r}\"", "f\"{byteRange.decode('ascii', errors='backslashreplace')!r}\""),
